@@ -348,7 +348,12 @@ def check_concrete_inputs(out, facts):
         ctx.env[d['params'][0]['v']] = ('input',)
         v, t = ev.ev(d['thir'], ctx)
         its = [e for e in events(t) if e[0] in INPUT_EVENTS]
-        okd = len(its) == 1 and its[0][0] == 'read' and sym.vstr(sym.deinit(its[0][1])) == 'index_mut([0:u8], RangeFull::RangeFull{})' and any(e[0] == '?' for e in events(t))
+        # one read of the whole of a one-byte buffer (`&mut buf[..]`, `&mut buf`, `[0u8]` or `[0u8; 1]`), its error propagated,
+        # and element 0 of that buffer returned (by index or by an array pattern)
+        okd = len(its) == 1 and its[0][0] == 'read' and any(e[0] == '?' for e in events(t))
+        if okd:
+            sv_ = slice_view(sym.deinit(its[0][1]))
+            okd = sv_ is not None and sv_[1] is None and sv_[2] is None and sym.vstr(sym.deinit(sv_[0])) == '[0:u8]'
         rv = sym.vstr(sym.deinit(strip(v)))
         okd = okd and rv == 'Ok([0:u8][0:usize])'
         out.ob('R08.2', 'Input::read_byte default [%s]' % cfg, okd, 'default read_byte is not `read(&mut [0u8][..])?; Ok(buf[0])`: %s -> %s' % (sym.tstr(t), rv), d['loc'])
@@ -495,6 +500,11 @@ def check_bytes_cursor(out, facts):
     seq = [e for e in events(t) if e[0] in ('dec', 'MUTCALL', 'SET', 'HOOK', 'ERR', 'read', 'rb')]
     kinds = [(e[0], e[1] if e[0] == 'MUTCALL' else None) for e in seq]
     want = [('dec', None), ('MUTCALL', 'advance'), ('SET', None), ('ERR', None), ('HOOK', None), ('MUTCALL', 'split_to')]
+    if len(kinds) == len(want) and kinds[1] == ('SET', None) and kinds[2] == ('MUTCALL', 'advance'):
+        # `advance(&mut bytes, mem::take(&mut position))`: the reset happens while the argument is evaluated; the amount
+        # advanced is still the old position (checked below)
+        seq[1], seq[2] = seq[2], seq[1]
+        kinds[1], kinds[2] = kinds[2], kinds[1]
     ok = kinds == want
     why = 'event sequence %s differs from dec Compact<u32>, advance(position), position = 0, reject, hook, split_to' % kinds
     if ok:
